@@ -95,6 +95,18 @@ def _euc(c):
     # the same points translated by 4096 in every coordinate (map coordinates far from the origin)
     far = Grid(np.arange(3.0), (pts + 4096.0).T.copy(), silence_level=3)
     o["d3far"] = enc.arr(far.euclidean_distance(), 1000)
+    # ... and by 2^23 in the FIRST coordinate only (a time stamp or an easting next to a fine coordinate; the
+    # integer lattice stays exactly representable in single precision): offset / separation ~ 10^7
+    # (the last coordinate is a FINE one, in sixteenths, when there is more than one)
+    shift = np.zeros(pts.shape[1])
+    shift[0] = 8388608.0
+    fine = pts.copy()
+    if pts.shape[1] > 1:
+        fine[:, -1] /= 16.0
+    near2 = Grid(np.arange(3.0), fine.T.copy(), silence_level=3)
+    far2 = Grid(np.arange(3.0), (fine + shift).T.copy(), silence_level=3)
+    o["d3near2"] = enc.arr(near2.euclidean_distance(), 1000)
+    o["d3far2"] = enc.arr(far2.euclidean_distance(), 1000)
     # nearest-node lookup at integer query points (squared distances are exact)
     dim = pts.shape[1]
     qs = [[int(pts[k % len(pts)][j]) + ((k + j) % 3) - 1 for j in range(dim)] for k in range(min(6, 2 * len(pts)))]
